@@ -1097,4 +1097,25 @@ v("moved-first-n-oldest-first", [(P, "        ids = first_n(reversed(self._tasks
 v("moved-first-n-off-by-one", [(HELPERS, "        if i >= num:\n", "        if i > num:\n")], {"C14": "R14.1"}, base="rf121")
 v("moved-ok-constant-shadowed-in-helpers", [(HELPERS, "def output_to_response(", "CMD_OK = b\"OK\"\n\n\ndef output_to_response(")], {"C17": "viol"}, base="rf121")
 
+# premises shared across checks (matrix review after round 11)
+v("return-or-exception-catches-less", [(HELPERS, "    except Exception as e:\n        return e\n", "    except (ValueError, TypeError, KeyError) as e:\n        return e\n")], {"C17": "viol", "C18": "viol"})
+v("execute-optional-never-awaits", [(HELPERS, "    if iscoroutinefunction(function):\n        return await cast(Awaitable[_R], function(*args, **kwargs))\n    return cast(_R, function(*args, **kwargs))\n", "    return cast(_R, function(*args, **kwargs))\n")], {"C03": "viol", "C05": "viol"})
+
+# round 12 / batch 13
+v("P-split-arguments-on-a-copy", [], {"C17": "ok", "C16": "ok", "C18": "ok"}, base="rf131")
+v("split-arguments-pops-the-original-not-the-copy", [(SESS, "            normal_pos.append(keyword.pop(param.name))\n", "            normal_pos.append(arguments.pop(param.name))\n")], {"C17": "R17.1"}, base="rf131")
+v("P-private-properties-for-task-views", [], {"C02": "ok", "C08": "ok", "C12": "ok", "C13": "ok"}, base="rf135")
+v("private-property-snapshot-is-a-live-view", [(P, "        finished: Dict[int, Task[Any]] = dict(self._tasks_ended)\n        finished.update(self._tasks_cancelled)\n        return finished\n",
+                                              "        from collections import ChainMap\n        return ChainMap(self._tasks_ended, self._tasks_cancelled)  # type: ignore[return-value]\n")], {"C13": "R13.1"}, base="rf135")
+v("private-property-all-tasks-misses-running", [(P, "            *self._tasks_cancelled.values(),\n            *self._tasks_running.values(),\n        ]\n", "            *self._tasks_cancelled.values(),\n        ]\n")], {"C08": "viol"}, base="rf135")
+v("first-doc-line-splitlines", [(HELPERS, '    return doc.strip().split("\\n", 1)[0].strip()\n', "    return doc.splitlines()[0].strip()\n")], {"C16": "R16.7"})
+v("P-first-doc-line-partition", [(HELPERS, '    return doc.strip().split("\\n", 1)[0].strip()\n', '    return doc.strip().partition("\\n")[0].strip()\n')], {"C16": "ok"})
+v("session-kept-on-the-server", [(SESS.replace("session", "server"), "        session = ControlSession(self, reader, writer)\n        try:\n            await session.client_handshake()\n            await session.listen()\n",
+                                  "        self._session = ControlSession(self, reader, writer)\n        try:\n            await self._session.client_handshake()\n            await self._session.listen()\n")], {"C18": "R18.8", "C19": "R19.9"})
+v("module-level-cache-in-helpers", [(HELPERS, "@overload\nasync def execute_optional(\n    function: Callable[_P, _R | Awaitable[_R]],", "_SEEN: dict = {}\n\n\ndef _is_coro(function: object) -> bool:\n    key = id(function)\n    if key not in _SEEN:\n        _SEEN[key] = iscoroutinefunction(function)\n    return _SEEN[key]\n\n\n@overload\nasync def execute_optional(\n    function: Callable[_P, _R | Awaitable[_R]],"),
+                                    (HELPERS, "    if iscoroutinefunction(function):\n        return await cast(Awaitable[_R], function(*args, **kwargs))\n", "    if _is_coro(function):\n        return await cast(Awaitable[_R], function(*args, **kwargs))\n")], {"C03": "R00.M", "C05": "R00.M"})
+v("check-start-accepts-callables", [(P, "        if function and not iscoroutinefunction(function):\n", "        if function and not (iscoroutinefunction(function) or iscoroutinefunction(getattr(function, '__call__', None))):\n")], {"C09": "R09.5"})
+v("P-check-start-predicate-through-helper", [(P, "class BaseTaskPool:\n", "def _is_coro_fn(function: object) -> bool:\n    return iscoroutinefunction(function)\n\n\nclass BaseTaskPool:\n"),
+                                             (P, "        if function and not iscoroutinefunction(function):\n", "        if function and not _is_coro_fn(function):\n")], {"C09": "ok"})
+
 VARIANTS = V
